@@ -72,6 +72,8 @@ SCENARIO("MIP_Problem.construct_from_system") { int n = rdim(); Constraint_Syste
 enum Cpy { COPY, ASSIGN, SWAP, CLEAR, DUMP, LOAD, PRINT };
 template <int OP> void s_mip_copy(Ctx& c) {
   int n = rdim(); MIP_Problem a = rmip(n), b = rmip(rnd(1, 2));
+  // (MIP_Problem::ascii_load appends to the constraints the target already holds - a C15 matter - so the target of LOAD starts empty)
+  if (OP == LOAD) b = MIP_Problem();
   std::string text = dump(a), out; bool ok = true;
   c.run([&] {
     switch (OP) {
@@ -158,6 +160,7 @@ SCENARIO("PIP_Problem.solution_tree_walk") { PipArgs a = rpip_args(); PIP_Proble
 template <int OP> void s_pip_copy(Ctx& c) {
   PipArgs aa = rpip_args(); PIP_Problem a = rpip(aa); if (coin(70)) (void) a.solve();
   PipArgs ab = rpip_args(); PIP_Problem b = rpip(ab); if (coin()) (void) b.solve();
+  if (OP == LOAD) b = PIP_Problem();     // PIP_Problem::ascii_load also appends to what the target holds (C15 matter)
   std::string text = dump(a), out; bool ok = true;
   c.run([&] {
     switch (OP) {
